@@ -252,12 +252,13 @@ def run(rep, tier, seed):
                   "the analysis pass is compared with the denotation only through the monitor")
     common.proof_coverage(rep, PID, audit, tier,
                           "lexer (Model/Lexer.v); numeric_value, parse_quantity (regular and advanced path), Text assembly, "
-                          "comp_body / note / parse_alias / ingredient / cookware / timer, step_loop / parse_step, "
+                          "comp_body / modifiers / parse_modifiers / parse_inter / note / parse_alias / ingredient / cookware / timer, "
+                          "step_loop / parse_step, text_block_loop, next_block / more_lines (block cut), "
                           "metadata_entry, section, parse_block / run_block and (through C14_full_blocks) events of "
                           "Model/Parser.v; the printers of coq/Model/Printer.v are definitions of the statements, the Python "
-                          "printer checks/c01_gen.py is a separate artefact making the same spelling choices; modifier "
-                          "characters, intermediate-reference data, `>` text blocks, the cut of a printed document into "
-                          "blocks, front matter and the analysis pass are compared and monitored, not proved")
+                          "printer checks/c01_gen.py is a separate artefact making the same spelling choices; the layout of a "
+                          "document is a predicate on its tokens (not yet derived from a document printer), front matter and "
+                          "the analysis pass are compared and monitored, not proved")
     rep.coverage.update({
         "evaluations": stats["parses"] + nc1 + nc2,
         "distinct_nontrivial": len(distinct),
